@@ -43,10 +43,15 @@ class Ctx:
         return [e for e in self.known_findings if e.get('status') == status]
 
     def known_finding(self, entry, what):
-        line = f'KNOWN-FINDING: property={self.id} {entry["id"]} {what}'
-        if line not in self.known:
-            self.known.append(line)
-            print(line, flush=True)
+        """one KNOWN-FINDING line per listed finding (the first instance met in this run); further
+        instances are only counted"""
+        self.known_counts = getattr(self, 'known_counts', {})
+        self.known_counts[entry['id']] = self.known_counts.get(entry['id'], 0) + 1
+        if self.known_counts[entry['id']] > 1:
+            return
+        line = f'KNOWN-FINDING: property={self.id} {entry["id"]}: {what}'
+        self.known.append(line)
+        print(line, flush=True)
 
     # ---- violations ------------------------------------------------------
     def write_replay(self, obj):
@@ -84,6 +89,7 @@ class Ctx:
         cov = dict(self.coverage)
         cov.setdefault('trusted_base', TRUSTED_BASE)
         cov['known_finding_lines'] = self.known
+        cov['known_finding_instances'] = getattr(self, 'known_counts', {})
         ev = {
             'property_id': self.id,
             'tier': self.tier,
